@@ -15,12 +15,12 @@ import (
 // return, in terms of its parameters: len(result_i) <= len(param_k), len(result_i) >= c,
 // result_i >= c, result_i <= len(param_k) + c.
 type retFact struct {
-	res      int  // result index
-	resLen   bool // fact is about len(result)
-	par      int  // parameter index or -1 (constant)
-	parLen   bool
-	upper    bool // result <= par + c   (else result >= par + c)
-	c        int64
+	res    int  // result index
+	resLen bool // fact is about len(result)
+	par    int  // parameter index or -1 (constant)
+	parLen bool
+	upper  bool // result <= par + c   (else result >= par + c)
+	c      int64
 }
 
 func (b *bp) retSummary(fn *ssa.Function) []retFact {
